@@ -43,7 +43,7 @@ type genOpts struct {
 	maxDepth   int
 	maxLen     int
 	budget     int  // remaining nodes
-	natPanic   bool // native functions that panic (deferred ones are a known finding)
+	natPanic   bool // native functions that panic
 	deferNatPn bool // deferred native that panics
 	stopFatal  bool
 	callbacks  int // percentage of the call instructions that go through a native function (0: none)
@@ -101,7 +101,7 @@ func genBody(r *rand.Rand, o *genOpts, depth int, deferred bool) []*Ins {
 }
 
 func genTree(r *rand.Rand, withFindings bool) []*Ins {
-	o := &genOpts{maxDepth: 1 + r.Intn(4), maxLen: 2 + r.Intn(5), budget: 6 + r.Intn(30), natPanic: true, deferNatPn: withFindings, stopFatal: true}
+	o := &genOpts{maxDepth: 1 + r.Intn(4), maxLen: 2 + r.Intn(5), budget: 6 + r.Intn(30), natPanic: true, deferNatPn: true, stopFatal: true}
 	// a third of the trees call some of their functions through native code
 	if r.Intn(3) == 0 {
 		o.callbacks = 30 + r.Intn(70)
